@@ -203,6 +203,9 @@ impl Check for C07 {
                 }
             }
         }
+        for sp in random_multi_faults(&cfg, &r, seed, if budget > 1_000_000 { 800 } else { 80 }) {
+            specs.push(("swarm:multi-fault".into(), sp));
+        }
         for (i, (kind, spec)) in specs.into_iter().enumerate() {
             if i as u64 % 4 != shard {
                 continue;
